@@ -19,7 +19,8 @@ CHECKS = {
    text="Lean theorems (full): len_exact_builtin (lenT t v = length of encodeT t v for the whole built-in universe; side condition SmallArity = tuples/records <= 23 "
         "components, true of every Rust type), len_exact_token (all 26 token variants, after fix 6736830), exact_buffer; derived CborLen: len_exact_derived over the derive "
         "model, full (every accepted schema, every well-typed value; the former K2/KD1/K3 witnesses are positive obligations). Correspondence: `tenc` of the C01 corpus, `tokenc` of boundary/random token "
-        "lists and `denc` of the generated derived types (all presence combinations): reported len must equal the bytes written, and both must equal the model's.",
+        "lists and `denc` of the generated derived types (all presence combinations): reported len must equal the bytes written, and both must equal the model's; attr-frontend (see C08): "
+        "the len components of the run-time probes (which cbor_len function is bound).",
    design="5/C07", technique="Lean 4 proof (same induction as C01; finite case split for tokens; derive model) + differential correspondence",
    note="the three defects of the derived CborLen (K2, KD1, K3) were repaired in /repo (d85a3d2, 36d21e9, 0196d88) and the model follows the repaired code; no known finding remains for C07"),
  "C03": dict(
@@ -100,8 +101,9 @@ CHECKS = {
         "nesting, indefinite containers, chunked strings) display(encW w) = render w, where render is written by recursion over the tree from the syntax summary in lib.rs "
         "([..], {..}, [_ / {_ markers, h'..', quoted text, (_ ..) chunks with ''_ / \"\"_ for empty ones, n(..), simple(n), null/undefined/true/false, decimal integers, float pieces). "
         "Correspondence: all byte strings up to 2 (3 thorough) bytes, all heads with extreme declared lengths, truncated/mutated valid "
-        "items (real output must stay within 16*len+256 in a length-limited sink and equal the model's), and wire trees whose rendering is compared with the notation rendered "
-        "independently from the tree.",
+        "items (real output must stay within 16*len+256 in a length-limited sink and equal the model's), wire trees whose rendering is compared with the notation rendered "
+        "independently from the tree, and arrays / maps / tags (definite, indefinite, mixed) nested 10^3 .. 2*10^4 (thorough 4*10^5) deep, complete and cut, displayed on a thread with a "
+        "192 KiB stack (pending work must live on the heap, not on the call stack).",
    design="5/C19", technique="Lean 4 proof (step function + termination measure + potential function over the control stack; abstract sequence lemmas and mutual induction over wire trees) + differential correspondence",
    note="Rust's {:e} float formatting and error message texts are parameters of the model (re-implemented / canonicalised in the orchestrator): renderedLength charges a fixed 32 per float "
         "piece and 128 per error text, and counts literal text in characters (every literal the printer writes is ASCII; string payloads are counted in bytes). Output is compared as a list of "
@@ -111,8 +113,11 @@ CHECKS = {
         "function is configuration-free by construction. Lean theorems: without half an f9 item is a type error for f32/f64 and on every other input the accessors are "
         "identical with and without half (value, error class, position); the alloc/no-alloc skip relation is C06's (noalloc refines alloc or reports the documented "
         "unsupported-nesting error). Correspondence: the library is built six times ({none,alloc,std} x {half,no half}; separate cargo invocations/target dirs, "
-        "default-features=false) and each build is run on one deterministic corpus (all accessors on wire trees, truncations, mutations, random bytes, typed decodes "
-        "available without alloc, all Encoder methods) and compared line by line with the model at that configuration.",
+        "default-features=false) and each build is run on one deterministic corpus (all accessors on wire trees, truncations, mutations, random bytes, typed decodes of EVERY kind of "
+        "Decode impl that exists without alloc (Option, tuples, arrays, Range, Duration, &str, Bound, Tagged incl. wrong tags, NonZero, Int, Tag, bool, char, (), ByteArray, &ByteSlice, Result, "
+        "nested) on valid, truncated and mutated input, all Encoder methods) and compared line by line with the model at that configuration AND with the answers of the other "
+        "configurations on the same input (value / error class / position equal unless the difference is one of the two documented ones): a cross-configuration difference is "
+        "reported with the input as replay.",
    design="5/C20", technique="Lean 4 proof (case analysis on the initial byte) + six-configuration differential correspondence against the configured model",
    note="partial: serde-bridge configurations (no-alloc bridge rejecting indefinite strings / collect_str) are not built separately yet; only x86-64 is compiled; message texts are not compared"),
  "C06": dict(
@@ -159,11 +164,19 @@ CHECKS = {
         "Correspondence: verifkit/derivegen.py draws ~900 type definitions per seed (fixed core family covering every value-affecting attribute + random grammar), "
         "writes the crate harness/dgen (rebuilt against /repo on every run) and the same schemas in protocol syntax for mcdrv; every case is judged by bytes == "
         "Lean spec == independent Python reference encoder, and the model must agree; a twin declaration of every schema (renamed, reordered, n<->b, other "
-        "attribute spelling) must produce the spec bytes of the original.",
+        "attribute spelling) must produce the spec bytes of the original. ATTRIBUTE FRONT END (Attrs.lean = attrs.rs / codec.rs / idx.rs / fields.rs / variants.rs and the structural checks of the "
+        "three macros; Thm/Attrs.lean): which definitions are accepted and what an accepted one means (index, tag, encoding, bound encode / is_nil / decode / nil / cbor_len functions). "
+        "fromAttrs_order_irrelevant / structSem_order_irrelevant / enumSem_order_irrelevant: the Rust code merges the entries of a per-attribute std HashMap in its per-process randomised "
+        "iteration order; for every level, every attribute list and every pair of valid iteration orders the front end either rejects under both or yields the same meaning (pairwise "
+        "commutation of try_insert on independent entries, by exhaustive case analysis of the codec cluster; invariant: a map parsed from one attribute never holds one of the two "
+        "order-sensitive pairs). spelling_*: #[n(i)] = #[cbor(n(i))]; with = encode_with + decode_with + cbor_len; with + has_nil = the five functions; one attribute = several. "
+        "order_sensitive_rejected / _accepted: the WRITTEN order matters for acceptance (is_nil; decode_with; encode_with in separate attributes is rejected), machine-checked. "
+        "Correspondence attr-frontend: ~6300 generated definitions compiled against /repo's macros; accepted iff the model accepts, rejections carry the predicted error; every accepted struct "
+        "is probed at run time and bytes / len / decode results must be what the model's meaning predicts (this check decides the encode components, C07 the len, C09 the decode components).",
    design="5/C08", technique="Lean 4 proof (mutual structural induction over nested schema syntax, list permutation / sortedness lemmas) + generated-crate differential "
         "correspondence with two independent reference encoders",
-   note="The proc-macro front end (syn parsing, attribute validation, bound / lifetime generation) is outside the model: the model starts from the abstract schema "
-        "the macro keeps after parsing; a generated definition the macro rejects shows up as a harness build failure. The field-type universe of the model is a "
+   note="syn (tokenising, literal parsing) and bound / lifetime generation are outside the model; attribute validation and merging ARE modelled (Attrs.lean); the schema-level model of the "
+        "generated code starts from the abstract schema the macro keeps after parsing; a generated definition the macro rejects shows up as a harness build failure. The field-type universe of the model is a "
         "closed small one (integers, bool, text, byte strings, Option, Vec, nested derived types, with=minicbor::bytes, one nil-aware custom codec); generic "
         "parameters are covered as their instantiations. A field tag inside a #[cbor(transparent)] struct is silently ignored by the macro (modelled and "
         "specified as such)."),
@@ -190,7 +203,8 @@ CHECKS = {
         "slice of the input ending where the remaining input starts (borrowed_leaf_is_input_slice); whether the Rust value keeps the slice or a copy is observed by pointer range "
         "in the harness. Correspondence: the C08 corpus decoded from (o) the implementation's own bytes, (i) its encoding, (ii) re-framings (all struct / variant / Vec containers "
         "indefinite, all heads widened), (iii) top-level mutations (wrong / missing tag at four levels, dropped mandatory field, unknown variant), (iv) strict prefixes; oracle in "
-        "the orchestrator (value, position, borrow flags, error class) and equality with the model.",
+        "the orchestrator (value, position, borrow flags, error class) and equality with the model; attr-frontend (see C08): the decode components of the run-time probes of every "
+        "accepted generated definition (which decode / nil functions are bound, absent fields, own bytes).",
    design="5/C09", technique="Lean 4 proof (slot invariant over the decode loops with per-index results, mutual structural induction, executable re-framing relation on wire trees) + "
         "generated-crate differential correspondence with in-orchestrator oracle",
    note="Re-framed input is a theorem for the relation `reframes`; what it leaves out of the unrestricted statement is exactly what the generated decoders reject: an "
@@ -262,7 +276,8 @@ CHECKS = {
         "ignored; definite and indefinite seq/map/struct maps accepted; structs and struct variants with run-time skipped fields (skip_serializing_if) round-trip (roundtrip_skipped_fields); (e) the Option-in-Option exclusion, K6 (char behind Content) and K7 (unit behind Content) as machine-checked "
         "counterexamples and the refutation of the unrestricted statement (roundtrip_statement_false). Correspondence: ~100 serde types incl. flatten / internally / adjacently tagged / "
         "untagged, judged by the property's own oracle in the orchestrator (independent encoder of the documented representation, reference well-formedness parser, de(ser v)==v, "
-        "consumed==len, accepted re-framings, never-a-different-value on free re-framings) and compared with the model; strict prefixes and byte mutations against the model.",
+        "consumed==len, accepted re-framings, never-a-different-value on free re-framings) and compared with the model; bulk documents (130 / 300, thorough 127..1000, compound elements "
+        "per container: tuples, fixed arrays, options, structs, enum values) so that state a (de)serialiser keeps per document is exercised; strict prefixes and byte mutations against the model.",
    design="5/C17", technique="Lean 4 proof (mutual structural induction over typing derivations, loop lemmas, finite decide tables for Decoder::type_of, reuse of the C03/C04/C05/C06 lemmas) + differential correspondence with in-orchestrator oracle",
    note="PARTIAL only in what the code does not do: the full statement (roundtrip_statement) is false on the pinned code in exactly two classes, recorded as known findings K6 (char behind "
         "serde's Content buffer) and K7 (unit `()` / untagged unit variant behind it), each with a machine-checked counterexample; everything else is proved (roundtrip_partial). Untagged enums "
@@ -276,7 +291,8 @@ CHECKS = {
         "interop_decode_agree (on ARBITRARY bytes and all shared types incl. [T;N]: two ok answers carry the same value and position, so each side returns that value or an error), "
         "interop_decode_canonical (the common bytes decode to v on both sides, consuming exactly the item), array_reframing_example (the 'or an error' is real). Correspondence: 43 shared "
         "types x boundary values: minicbor::to_vec vs minicbor_serde::to_vec vs the orchestrator's own encoder; minicbor::decode vs minicbor_serde on canonical bytes, re-framings "
-        "(wider heads, indefinite containers, chunked strings), strict prefixes and byte mutations, judged by the property's oracle and compared with the model.",
+        "(wider heads, indefinite containers, chunked strings), bulk documents (hundreds of tuples / fixed arrays / options in one document), strict prefixes and byte mutations, judged by the "
+        "property's oracle and compared with the model.",
    design="5/C18", technique="Lean 4 proof (mutual structural induction; compositional 'agree on success' relation over the decoder monad) + differential correspondence",
    note="serde's std impls for the shared types are modelled, not verified; Option directly inside Option is the properties' documented exclusion (Some(None) is null on both sides, they agree with each other)."),
  "C13": dict(
